@@ -178,7 +178,7 @@ macro_rules! vend {
 /// Size of the key universe (keys 0..UNIV).
 pub const UNIV: u8 = 5;
 /// Maximal number of entries a harness builds directly.
-pub const NMAX: usize = 4;
+pub const NMAX: usize = 7;
 /// Heap bytes every key claims (so that the key's share of entry_size is visible).
 pub const KEY_HEAP: usize = 3;
 
@@ -305,10 +305,10 @@ pub fn esz(heap: usize) -> usize {
 /// Constant part of an entry's size.
 pub const ES0: usize = std::mem::size_of::<E>() + KEY_HEAP;
 
-// ids: original entry i has value id i and key id 8 + i; the pair handed to
-// an operation has value id NEW_VID and key id NEW_KID; clones add 16.
-pub const NEW_VID: u8 = 6;
-pub const NEW_KID: u8 = 14;
+// ids: original entry i (i < 7) has value id i and key id 8 + i; the pair handed to
+// an operation has value id NEW_VID = 7 and key id NEW_KID = 15; clones add 16.
+pub const NEW_VID: u8 = 7;
+pub const NEW_KID: u8 = 15;
 
 // ---------------------------------------------------------------------------
 // hashers: the equality patterns of `tab`
@@ -389,6 +389,9 @@ pub mod tm {
     pub fn fail_next_alloc() {
         unsafe { FAIL_NEXT_ALLOC = true; }
     }
+    pub fn clear_fail() {
+        unsafe { FAIL_NEXT_ALLOC = false; }
+    }
     /// Draws the model's nondeterministic choices (placement / tombstones).
     pub fn nondet(placement: bool, tombstones: bool) {
         let ch: [u8; 16] = super::sym::any();
@@ -409,7 +412,19 @@ pub mod tm {
     pub fn tables_allocated() -> usize { 0 }
     pub fn last_request() -> usize { 0 }
     pub fn insert_grows() -> usize { 0 }
-    pub fn fail_next_alloc() {}
+    /// Native replay: the replay binary's allocator refuses the next allocation
+    /// (hashbrown's fallible table allocation then reports AllocError).
+    pub static FAIL_HOOK: std::sync::OnceLock<fn(bool)> = std::sync::OnceLock::new();
+    pub fn fail_next_alloc() {
+        if let Some(f) = FAIL_HOOK.get() {
+            f(true)
+        }
+    }
+    pub fn clear_fail() {
+        if let Some(f) = FAIL_HOOK.get() {
+            f(false)
+        }
+    }
     pub fn nondet(_placement: bool, _tombstones: bool) {
         let _ch: [u8; 16] = super::sym::any();
     }
@@ -486,7 +501,7 @@ pub fn sym_key(bound: u8) -> u8 {
 
 /// Inv I1-I4 (DESIGN.md 3.3). `bound` = maximal number of nodes walked.
 pub fn inv(c: &C, bound: usize) {
-    vblock!([C01, C02, C07, C12, C13, C14, C15, C17], {
+    vblock!([C01, C02, C07, C11, C12, C13, C14, C15, C17], {
         let mut cnt = 0usize;
         let mut sum = 0usize;
         let mut p = c.seal.get().prev; // LRU
@@ -498,7 +513,7 @@ pub fn inv(c: &C, bound: usize) {
             let e = p.get();
             let k = unsafe { e.key() };
             let v = unsafe { e.value() };
-            vassert!([C02], e.size == entry_size(k, v), "I3: recorded size of an entry differs from entry_size(key, value)");
+            vassert!([C02, C11], e.size == entry_size(k, v), "I3: recorded (accounted) size of an entry differs from entry_size(key, value)");
             vblock!([C07, C17], {
                 let found = c.peek_entry(&k.k);
                 vcheck!(
